@@ -28,10 +28,11 @@ var c04Master = []masterGene{
 	{"I2", "H1", false}, // #2
 	{"H1", "O", false},  // #3
 	{"I1", "O", false},  // #4  same link as #1 (conflict pair)
-	{"H1", "H1", true},  // #5  recurrent self-loop
-	{"B", "O2", false},  // #6  bias link (to the second output where the layout has one)
-	{"I2", "H2", false}, // #7
-	{"H2", "O", false},  // #8
+	{"H1", "O", true},   // #5  the recurrent twin of #3 (same node pair, other recurrence flag: a genome may hold both)
+	{"H1", "H1", true},  // #6  recurrent self-loop
+	{"B", "O2", false},  // #7  bias link (to the second output where the layout has one)
+	{"I2", "H2", false}, // #8
+	{"H2", "O", false},  // #9
 }
 
 // c04Layouts: node ids per symbol. Layout 0: sensors, output, then hidden nodes (as in the
@@ -461,7 +462,7 @@ func runC04(c *Ctx) {
 	c.Extra["master_list_k"] = bd.K
 	c04Enumerate(c, bd, c04Oracle(c))
 	c.States = int64(len(c.distinct))
-	c.Rule = fmt.Sprintf("parents = every non-empty well-formed subset of a master list of k=%d innovations over {bias, 2 inputs, output(s), 2 hidden} - in two node layouts: outputs before the hidden nodes, and hidden nodes before two outputs - that contains two innovations for the same link and a recurrent self-loop; all ordered pairs x enabled patterns x trait patterns {mixed, nil, (thorough: uniform)} x fitness orders {<,=,>} x {multipoint, multipoint-avg, single-point} x every choice sequence of the mate call (complete tree when <= 3 (multipoint) / <= 1 (avg) genes match and always for single-point, else all sequences within 3 / 2 deviations of Z, M, H); weights and mutation numbers from the hard-float alphabet. Oracle = the C04 statement clause by clause. states = distinct ordered parent pairs, transitions = mate calls on the real code", bd.K)
+	c.Rule = fmt.Sprintf("parents = every non-empty well-formed subset of a master list of k=%d innovations over {bias, 2 inputs, output(s), 2 hidden} - in two node layouts: outputs before the hidden nodes, and hidden nodes before two outputs - that contains two innovations for the same link, a forward and a recurrent gene between one node pair and (k >= 6) a recurrent self-loop; all ordered pairs x enabled patterns x trait patterns {mixed, nil, (thorough: uniform)} x fitness orders {<,=,>} x {multipoint, multipoint-avg, single-point} x every choice sequence of the mate call (complete tree when <= 3 (multipoint) / <= 1 (avg) genes match and always for single-point, else all sequences within 3 / 2 deviations of Z, M, H); weights and mutation numbers from the hard-float alphabet. Oracle = the C04 statement clause by clause. states = distinct ordered parent pairs, transitions = mate calls on the real code", bd.K)
 	c.Assume("parents share consistent innovation numbering (equal number => equal link); conflicting numbering appears only as two numbers for one link")
 	c.Assume("Go toolchain, go build -overlay, the instrumenter and the accessor file are trusted")
 }
